@@ -29,6 +29,7 @@ T9 = {
     "fileio/write_wdc.cpp": [],
     "core/Macros.cpp": ["macros_expand_params"],
     "core/tokens.cpp": ["tokens_get", "tokens_unget_char"],
+    "main/naken_asm.cpp": ["main", "output_hex_text"],
     "core/tokens.h": ["tokens_get", "tokens_unget_char"],
     "fileio/read_hex.cpp": ["get_hex"],
     "core/Macros.h": ["macros_expand_params"],
